@@ -297,6 +297,14 @@ def gen_history(rng, subj):
         ops.append(op)
         subj.apply(op)
         subj.history = list(ops)
+        if op[0] == 'par_names' and op[1] is not None:
+            # renaming the free parameters leaves the fixed ones under their names (they are released by name)
+            fixed_now = net_of(subj.orig_names, subj.trans)
+            after = subj.full_names()
+            for i, n0 in enumerate(subj.orig_names):
+                if n0 in fixed_now and after[i] != names[i] and not getattr(subj, 'name_problem', None):
+                    subj.name_problem = ('set_parameter_names(%r) on the free parameters renamed the fixed parameter '
+                                         '%r to %r' % (op[1], names[i], after[i]))
         # translate keys to original names by position
         if op[0] == 'fix':
             pos = {n: i for i, n in enumerate(names)}
@@ -332,6 +340,9 @@ def run_case(seed):
     out = {'seed': seed, 'kind': kind, 'sub': sub}
     ops = gen_history(rng, subj)
     out['ops'] = ops
+    if getattr(subj, 'name_problem', None):
+        out['violation'] = subj.name_problem
+        return out
     out['orig_names'] = subj.orig_names
     out['trans'] = subj.trans
     net = net_of(subj.orig_names, subj.trans)
